@@ -10,6 +10,7 @@ import (
 	"sort"
 	"strings"
 	"testing"
+	"time"
 	"testing/synctest"
 
 	"github.com/libp2p/go-libp2p/core/event"
@@ -110,7 +111,11 @@ func runC12(c *vu.Case) {
 				know[atoi(x[0])] = parseInts(x[1], ".")
 			}
 			for r, b := range res {
-				w.dialFail[w.peerOf(r)] = b == "dial"
+				w.dialFail[w.peerOf(r)] = b == "dial" || b == "sdial"
+				if b == "dial" || b == "sdial" {
+					// the connection to the peer is gone (a member too can have to be dialled again)
+					w.h.Net().Disconnect(w.peerOf(r))
+				}
 			}
 			// admission probes still in flight are not part of the lookup
 			pre := map[*parked]bool{}
@@ -124,8 +129,14 @@ func runC12(c *vu.Case) {
 			// (the lookup proper announces every peer it asks in a lookup event; the follow-up phase does not)
 			var termMu sync.Mutex
 			asks := map[int]int{}
+			terminated := false
 			go func() {
 				for ev := range lev {
+					if ev.Terminate != nil {
+						termMu.Lock()
+						terminated = true
+						termMu.Unlock()
+					}
 					if ev.Request != nil {
 						termMu.Lock()
 						for _, p := range ev.Request.Waiting {
@@ -185,11 +196,24 @@ func runC12(c *vu.Case) {
 					settle()
 					continue
 				}
-				// a call whose own context has ended returns that error: it is no verdict about the peer
-				if pk.ctx.Err() != nil {
+				if pk.kind == "dial" && b == "sdial" {
+					// a dial that fails only after a quarter of a minute
+					time.Sleep(15 * time.Second)
+					settle()
+				}
+				termMu.Lock()
+				over := terminated
+				termMu.Unlock()
+				// a call whose own context has ended returns that error: it is no verdict about the peer — provided somebody
+				// ended it: the caller, or the lookup when it terminated. A call that lost its context while the lookup is
+				// still running and nobody cancelled is a failure like any other as far as the property goes.
+				if pk.ctx.Err() != nil && (cancelled == 1 || over) {
 					w.sender.release(pk, parkedResult{ctxErr: true})
 					evs = append(evs, fmt.Sprintf("%d:%s:1", r, "fail"))
-				} else if pk.kind == "dial" || b == "fail" || b == "dial" {
+				} else if pk.ctx.Err() != nil {
+					w.sender.release(pk, parkedResult{ctxErr: true})
+					evs = append(evs, fmt.Sprintf("%d:fail:0", r))
+				} else if pk.kind == "dial" || b == "fail" || b == "dial" || b == "sdial" {
 					w.sender.release(pk, parkedResult{err: errScripted})
 					evs = append(evs, fmt.Sprintf("%d:fail:0", r))
 				} else {
@@ -241,7 +265,7 @@ func TestVerifC12(t *testing.T) {
 					var res, know []string
 					for q := 0; q < n; q++ {
 						if r.Chance(1, 4) {
-							res = append(res, fmt.Sprintf("%d:%s", q, []string{"fail", "dial"}[r.Intn(2)]))
+							res = append(res, fmt.Sprintf("%d:%s", q, []string{"fail", "dial", "fail", "dial", "sdial"}[r.Intn(5)]))
 						}
 						if r.Chance(1, 2) {
 							var ks []string
